@@ -133,7 +133,7 @@ mut('C19', 'stats-not-reset-between-runs', CT + 'controller_nonMPI.py', '       
 mut('C19', 'level-status-kept-over-reset', 'pySDC/core/level.py', '        if reset_status:\n            self.status = _Status()', '        if reset_status and self.status.residual is None:\n            self.status = _Status()')
 # ---------------------------------------------------------------------------------------------------------------- C13
 mut('C13', 'init-step-no-copy', 'pySDC/core/step.py', 'self.levels[0].u[0] = P.dtype_u(u0)', 'self.levels[0].u[0] = u0')
-mut('C13', 'sweep-updates-in-place', SW + 'generic_implicit.py', '                L.u[m + 1] = P.solve_system(rhs, alpha, L.u[m + 1], L.time + L.dt * self.coll.nodes[m])', '                L.u[m + 1][:] = P.solve_system(rhs, alpha, L.u[m + 1], L.time + L.dt * self.coll.nodes[m])')
+mut('C13', 'sweep-updates-in-place', SW + 'generic_implicit.py', '                L.u[m + 1] = P.solve_system(rhs, alpha, L.u[m + 1], L.time + L.dt * self.coll.nodes[m])', '                L.u[m + 1][:] = P.solve_system(rhs, alpha, L.u[m + 1], L.time + L.dt * self.coll.nodes[m])', expect='equivalent: node values are private to the level; what is logged or returned (uend) is a copy made by compute_end_point, so in-place node updates do not reach it')
 # ---------------------------------------------------------------------------------------------------------------- C14
 mut('C14', 'sort-stats-reversed', 'pySDC/helpers/stats_helper.py', 'sorted(result, key=lambda tup: tup[0])', 'sorted(result, key=lambda tup: tup[0], reverse=True)')
 # ---------------------------------------------------------------------------------------------------------------- C15
@@ -149,7 +149,7 @@ mut('C16', 'negative-index-clamped', 'pySDC/helpers/fieldsIO.py', 'assert idx >=
 mut('C17', 'derivative-scaling-power', 'pySDC/helpers/spectral_helper.py', 'return self.sparse_lib.csc_matrix(self.xp.linalg.matrix_power(D, p)) / self.lin_trf_fac**p', 'return self.sparse_lib.csc_matrix(self.xp.linalg.matrix_power(D, p)) / self.lin_trf_fac')
 # ---------------------------------------------------------------------------------------------------------------- C20
 mut('C20', 'level-list-wraps-around', 'pySDC/core/step.py', 'ld[d][k] = v[min(d, len(v) - 1)]', 'ld[d][k] = v[d % len(v)]')
-mut('C20', 'missing-transfer-accepted', 'pySDC/core/step.py', "        if len(descr_list) > 1 and not descr_new['space_transfer_class']:", '        if False:')
+mut('C20', 'missing-transfer-accepted', 'pySDC/core/step.py', "        if len(descr_list) > 1 and not descr_new['space_transfer_class']:", '        if False:', expect='equivalent: without the explicit test the construction still fails a few lines later (base transfer built from None), i.e. the setup is still rejected')
 mut('C20', 'controller-order-reversed', 'pySDC/core/controller.py', 'self.convergence_controller_order = np.arange(len(self.convergence_controllers))[np.argsort(orders)]', 'self.convergence_controller_order = np.arange(len(self.convergence_controllers))[np.argsort(orders)[::-1]]')
 
 
